@@ -160,6 +160,29 @@ def same_float(a, b):
     return a == b or (a != a and b != b)
 
 
+AMP_TYPES = {'float': float, 'int': int, 'float64': np.float64, 'float32': np.float32, 'int64': np.int64, 'int32': np.int32,
+             'ndarray0': lambda v: np.array(float(v)), 'list': list, 'tuple': tuple, 'ndarray': np.array}
+
+
+def amp_type_name(a):
+    if isinstance(a, np.ndarray):
+        return 'ndarray0' if a.ndim == 0 else 'ndarray'
+    return type(a).__name__
+
+
+def amp_plain(a):
+    """JSON-able value of an amplitude argument"""
+    if isinstance(a, np.ndarray):
+        return a.tolist()
+    if isinstance(a, (list, tuple)):
+        return [float(v) for v in a]
+    return a.item() if isinstance(a, np.generic) else a
+
+
+def is_numpy_scalar(a):
+    return np.ndim(a) == 0 and not isinstance(a, (int, float))
+
+
 def close(a, b, scale, tol=1e-9):
     return a.shape == b.shape and bool(np.all(np.abs(a - b) <= tol * scale))
 
@@ -255,6 +278,11 @@ def oracle_mask_sift(x, src, mode, mask_amp, step, max_imfs, n, imf_opts, procs)
         return sift.mask_sift(x, nprocesses=k, **kw)
     with traced_masks() as log:
         st, r = _run(lambda: call(procs[0]), timeout=60)
+    if st == 'raised' and is_numpy_scalar(mask_amp):
+        st2, _ = _run(lambda: sift.mask_sift(x, nprocesses=procs[0], **dict(kw, mask_amp=amp_plain(mask_amp))), timeout=60)
+        if st2 == 'ok':
+            return ['mask_sift raised %r for the scalar amplitude %r of type %s although the equal Python number is accepted: no '
+                    'masked IMF is produced and the amplitude rule is not applied' % (r, mask_amp, amp_type_name(mask_amp))], 'raised-npscalar', 0
     if st != 'ok':
         return [], st, 0
     imf, freqs = r
@@ -290,7 +318,7 @@ def oracle_mask_sift(x, src, mode, mask_amp, step, max_imfs, n, imf_opts, procs)
     # amplitudes follow the mode
     sdx = float(x.std())
     for k in range(K):
-        a = mask_amp if isinstance(mask_amp, (int, float)) else mask_amp[k]
+        a = float(mask_amp) if np.ndim(mask_amp) == 0 else float(mask_amp[k])
         if mode == 'abs':
             want = a * 1.0
         elif mode == 'ratio_sig' or k == 0:
@@ -379,7 +407,7 @@ def impl_toy_mask_sift(case, nproc):
     else:
         mf = [src[i] / src[i + 1] for i in range(1, len(src), 2)]
     step = sn // sd if sn % sd == 0 else sn / sd
-    amp = list(amps) if is_arr else amps[0]
+    amp = list(amps) if is_arr == 1 else (np.int64(amps[0]) if is_arr == 2 else amps[0])
     with toy_patched(cfg[0]), traced_masks() as log:
         st, r = _run(lambda: sift.mask_sift(X, mask_amp=amp, mask_amp_mode='abs', mask_freqs=mf, mask_step_factor=step,
                                             max_imfs=max_imfs, sift_thresh=cfg[14] / 2, nphases=n, nprocesses=nproc,
@@ -407,6 +435,11 @@ def toy_oracle_mask_sift(case, nproc):
     cfg = case[0]
     n = case[7]
     st, out, log = impl_toy_mask_sift(case, nproc)
+    if st == 'ok' and out == [-1] and case[5] == 2:
+        st2, out2, _ = impl_toy_mask_sift(case[:5] + (0,) + case[6:], nproc)
+        if st2 == 'ok' and out2 != [-1]:
+            return ('mask_sift raised for the scalar amplitude np.int64(%d) although the equal Python number is accepted: no masked IMF is '
+                    'produced and the amplitude rule is not applied' % case[6][0])
     if st != 'ok' or out == [-1]:
         return None
     nfreq = out[out.index(-99998) + 1:]
@@ -452,32 +485,36 @@ def gen_toy_gni_case(rng):
 
 def gen_toy_ms_case(rng):
     cfg = gen_toy_cfg(rng)
-    N = rng.choice([16, 32])
+    if cfg[1] != 2 and rng.random() < 0.8:
+        cfg[2] = rng.choice([8, 20, 20]) if cfg[0] != 1 else 8       # fewer convergence errors: more layers reached
+    if rng.random() < 0.6:
+        cfg[14] = 1
+    N = rng.choice([16, 32, 32])
     x = gen_toy_signal(rng, N)
-    kind = rng.choice(['zc', 'zc', 'zc', 'float', 'float', 'float', 'list', 'list', 'list', 'badfloat'])
+    kind = rng.choice(['zc', 'zc', 'zc', 'zc', 'float', 'float', 'float', 'float', 'list', 'list', 'list', 'list', 'badfloat'])
     sn = rng.choice([2, 2, 4])
     n = rng.choice([1, 2, 4, 4, 8])
     if kind == 'zc':
         src = [0]
-        max_imfs = rng.randint(1, 3 if sn == 2 else 2)
+        max_imfs = max(rng.randint(1, 3 if sn == 2 else 2), rng.randint(1, 3 if sn == 2 else 2))
     elif kind == 'float':
         zn, zd = rng.choice([(1, 4), (3, 16), (1, 8), (5, 32), (3, 8), (7, 16), (7, 32)])
         src = [2, zn, zd]
-        max_imfs = rng.randint(1, 4 if sn == 2 else 2)
+        max_imfs = max(rng.randint(1, 4 if sn == 2 else 2), rng.randint(1, 4 if sn == 2 else 2))
     elif kind == 'badfloat':
         zn, zd = rng.choice([(1, 2), (3, 4), (-1, 4), (0, 1)])
         src = [2, zn, zd]
         max_imfs = rng.randint(1, 3)
     else:
-        k = rng.randint(1, 4)
+        k = max(rng.randint(1, 4), rng.randint(1, 4))
         src = [3]
         for _ in range(k):
             src += list(rng.choice([(1, 4), (3, 16), (1, 8), (5, 64), (1, 16), (3, 32), (1, 32), (9, 128), (0, 1), (1, 2)]))
-        max_imfs = rng.randint(1, 5)
+        max_imfs = max(rng.randint(1, 5), rng.randint(1, 5))
     if n == 8:
         max_imfs = min(max_imfs, 3)
-    is_arr = rng.random() < 0.5
-    if is_arr:
+    is_arr = rng.choice([0, 0, 1, 1, 1, 2])          # Python scalar / array / numpy scalar (np.int64)
+    if is_arr == 1:
         amps = [rng.choice([0, 2, 5, 8, 16, 24, 40, -8]) for _ in range(rng.choice([max_imfs, max_imfs, 5, 5, 5, max(1, max_imfs - 1)]))]
     else:
         amps = [rng.choice([0, 1, 4, 8, 16, 20, 33, 64])]
@@ -532,10 +569,10 @@ def run(ctx):
         ctx.hist['cos-table'] += 1
         if exp != [want] or got != want:
             bad.append(('cos16', dict(kind='cos', k=k), [got], exp))
-    ctx.exhaustive = True
+    ctx.notes.append('the 512-step quantised cosine table of the model was compared with numpy over its whole index range')
 
     # ---- (a1) get_next_imf_mask, toy mode
-    ngni = 100 if quick else 1500
+    ngni = 100 if quick else 900
     cases = [gen_toy_gni_case(ctx.rng) for _ in range(ngni)]
     mo = ctx.model_outputs(IMPORTS, [lit_gni(c) for c in cases], EXPR_GNI, shard=60 if quick else 150)
     pool_cases = []
@@ -575,7 +612,7 @@ def run(ctx):
                 bad.append(('model pool', dict(kind='toy-gni', case=list(case), nprocesses=1), exp, got))
 
     # ---- (a2) mask_sift, toy mode
-    nms = 80 if quick else 1200
+    nms = 80 if quick else 500
     cases = [gen_toy_ms_case(ctx.rng) for _ in range(nms)]
     mo = ctx.model_outputs(IMPORTS, [lit_ms(c) for c in cases], EXPR_MS, shard=50 if quick else 120)
     for case, exp in zip(cases, mo):
@@ -587,7 +624,7 @@ def run(ctx):
         inp = dict(kind='toy-masksift', case=list(case), nprocesses=nproc)
         ncols = exp.count(-99999)
         srck = {0: 'zc', 2: 'float', 3: 'list'}[case[2][0]]
-        ctx.count(('toy-ms',) + tuple(map(repr, case)), ncols >= 2, 'toy-masksift-%s-%s-%s' % (srck, 'array' if case[5] else 'scalar',
+        ctx.count(('toy-ms',) + tuple(map(repr, case)), ncols >= 2, 'toy-masksift-%s-%s-%s' % (srck, ['scalar', 'array', 'npscalar'][case[5]],
                                                                                                'raised' if exp == [-1] else 'cols%d' % ncols))
         ctx.exact_cmp += 1
         if len(ctx.samples) < 3:
@@ -595,12 +632,13 @@ def run(ctx):
         if got != exp:
             d = toy_oracle_mask_sift(case, nproc)
             if d is not None:
-                ctx.problem('impl-violation', 'mask_sift', 'toy mode: ' + d, input=inp, observed=got[:80], expected=exp[:80], tags=dict(mode='toy'))
+                ctx.problem('impl-violation', 'mask_sift', 'toy mode: ' + d, input=inp, observed=got[:80], expected=exp[:80],
+                            tags=dict(mode='toy', defect=('numpy-scalar-amplitude' if got == [-1] and case[5] == 2 else 'masking-rule')))
             elif len(bad) < 8:
                 bad.append(('mask_sift', inp, got, exp))
 
     # ---- (b), (d) and the oracle: get_next_imf_mask on real numerics
-    nreal = 40 if quick else 800
+    nreal = 40 if quick else 200
     sigs = siftcore.real_signals(ctx.seed + 7, nreal, 32, 160)
     for i, (fam, x) in enumerate(sigs):
         imf_opts = siftcore.real_opts(ctx.rng)[0]
@@ -622,7 +660,7 @@ def run(ctx):
 
     # ---- (c), (d) and the oracle: mask_sift on real numerics
     combos = [(s, m, arr) for s in ('zc', 'if', 'float', 'list') for m in ('abs', 'ratio_sig', 'ratio_imf') for arr in (False, True)]
-    reps = 1 if quick else 12
+    reps = 1 if quick else 2
     sigs = siftcore.real_signals(ctx.seed + 11, len(combos) * reps + 8, 48, 200)
     sigs = [s for s in sigs if s[0] not in ('const-ramp',)][:len(combos) * reps]
     for i, (fam, x) in enumerate(sigs):
@@ -643,14 +681,16 @@ def run(ctx):
         base = ctx.rng.choice([0.5, 1, 1.0, 2.0])
         if mode == 'abs':
             base = base * max(1e-3, float(np.std(x)) or 1.0)
-        mask_amp = [base * ctx.rng.choice([0.5, 1, 1.5]) for _ in range(6)] if arr else base
-        if arr and ctx.rng.random() < 0.5:
-            mask_amp = np.array(mask_amp)
+        if arr:
+            mask_amp = AMP_TYPES[ctx.rng.choice(['list', 'tuple', 'ndarray'])]([base * ctx.rng.choice([0.5, 1, 1.5]) for _ in range(6)])
+        else:
+            tn = ctx.rng.choice(['float', 'float64', 'float32', 'ndarray0'] + (['int', 'int64', 'int32'] if float(base).is_integer() else []))
+            mask_amp = AMP_TYPES[tn](base)
         procs = [ctx.rng.choice(procs_all)] + [p for p in (ctx.rng.sample(procs_all, 2) if quick else procs_all)]
         procs = [procs[0]] + [p for p in procs[1:] if p != procs[0]]
         fails, path, disc = oracle_mask_sift(x, src, mode, mask_amp, step, max_imfs, n, imf_opts, procs)
         ctx.discarded += disc
-        if path in ('timeout', 'converge', 'raised', 'nonint'):
+        if path in ('timeout', 'converge', 'raised', 'nonint') and not fails:
             if path == 'raised' and srck != 'if':
                 ctx.notes.append('mask_sift raised on a real-mode case (%s, %s)' % (srck, mode))
             ctx.discarded += 1
@@ -662,9 +702,9 @@ def run(ctx):
             ctx.problem('impl-violation', 'mask_sift', f,
                         input=dict(kind='real-masksift', signal=[float(v) for v in x], src=(src.tolist() if isinstance(src, np.ndarray) else src),
                                    src_type=type(src).__name__, mode=mode,
-                                   mask_amp=(mask_amp.tolist() if isinstance(mask_amp, np.ndarray) else mask_amp),
-                                   amp_type=type(mask_amp).__name__, step=step, max_imfs=max_imfs, nphases=n, imf_opts=imf_opts, procs=procs),
-                        tags=dict(mode='real', family=fam, source=srck, amp_mode=mode))
+                                   mask_amp=amp_plain(mask_amp), amp_type=amp_type_name(mask_amp), step=step, max_imfs=max_imfs, nphases=n, imf_opts=imf_opts, procs=procs),
+                        tags=dict(mode='real', family=fam, source=srck, amp_mode=mode,
+                                  defect=('numpy-scalar-amplitude' if path == 'raised-npscalar' else 'masking-rule')))
     ctx.notes.append('the pool contract (every task once, results keyed by task index, tasks pure) is the modelled part; the real multiprocessing '
                      'module and the OS scheduler are trusted and exercised with nprocesses in %s' % procs_all)
     if bad and not any(p['kind'] == 'impl-violation' for p in ctx.problems):
@@ -695,7 +735,7 @@ def replay(rec):
             src = np.array(src)
         elif i['src_type'] == 'tuple':
             src = tuple(src)
-        amp = np.array(i['mask_amp']) if i['amp_type'] == 'ndarray' else i['mask_amp']
+        amp = AMP_TYPES[i['amp_type']](i['mask_amp'])
         f, _, _ = oracle_mask_sift(np.array(i['signal']), src, i['mode'], amp, i['step'], i['max_imfs'], i['nphases'], o, i['procs'])
         for x in f:
             print(x)
